@@ -268,7 +268,7 @@ class World:
     # ------------------------------------------------------------------
     # helpers shared by CLUSTER-like ops
 
-    def _resolve_fault(self, fault, counts, lines):
+    def _resolve_fault(self, fault, counts, lines, file_lines=None):
         """Turn a fractional fault descriptor into a concrete one using the
         counts of the fault-free dry run (= the reference execution), so that
         faults land inside work, never after it."""
@@ -288,7 +288,18 @@ class World:
         elif kind == "async-crash":
             if not lines:
                 return None
-            res = {"kind": kind, "k": 1 + int(fault["f_k"] * lines) % lines}
+            f_k = fault["f_k"]
+            # Half of the crashes are placed uniformly over all matid line events (dominated by
+            # the hot loops), the other half file-stratified: uniform over the matid source files
+            # that ran, then uniform over that file's own line events.  Both are pure functions of
+            # the one drawn number f_k, so world generation (the PRNG stream) is unchanged.
+            if file_lines and int(f_k * 1e6) % 2 == 1:
+                rels = sorted(file_lines)
+                rel = rels[int((f_k * 7919.0) % 1.0 * len(rels)) % len(rels)]
+                n = file_lines[rel]
+                res = {"kind": kind, "file": rel, "kf": 1 + int((f_k * 104729.0) % 1.0 * n) % n}
+            else:
+                res = {"kind": kind, "k": 1 + int(f_k * lines) % lines}
         else:
             raise HarnessError("unknown fault kind %r" % kind)
         fault["resolved"] = dict(res)  # recorded into the spec => replay file
@@ -300,6 +311,11 @@ class World:
             key = f["kind"] + (":" + f["site"] + ":" + f["exc"] if f["kind"] == "dep-raise" else "")
             self.fault_fired[key] += 1
             self.fault_fired["kind:" + f["kind"]] += 1
+            if f["kind"] == "async-crash" and f.get("at"):
+                # reach of the crash placement: which matid source file the crash landed in
+                mode = "file-stratified" if "file" in f else "uniform"
+                self.fault_fired["crash-placement:" + mode] += 1
+                self.fault_fired["crash-in[%s]:%s" % (mode, f["at"].rsplit(":", 1)[0])] += 1
             if returned:
                 self.fault_fired["swallowed:" + (f.get("site") or "crash")] += 1
             return True
@@ -344,6 +360,7 @@ class World:
             counts=dict(sm.counts),
             total=sm.total,
             lines=sm.lines if need_lines else None,
+            file_lines=sm.file_counts() if need_lines else None,
             picks=list(g.trace) if g is not None else None,
         )
         if out[0] == "ok":
@@ -365,7 +382,7 @@ class World:
         if ref["out"] == "hang":
             self._violate("HANG", i, "isolated execution: %s" % ref["exc"])
             return {"out": "hang"}
-        arm = self._resolve_fault(fault, ref["counts"], ref["lines"])
+        arm = self._resolve_fault(fault, ref["counts"], ref["lines"], ref.get("file_lines"))
         inst = self._instance(op.get("inst", "fresh"), "SBC")
         self._journal(i, "real")
         out, sm, g = self._run_clusters(
@@ -601,7 +618,7 @@ class World:
                 return {"out": "skip-tainted"}
             self._violate("UNEXPECTED_EXC", i, "reference get_dimensionality raised %s" % _exc_desc(e), exc=type(e).__name__, site=_where(e))
             return {"out": "exc"}
-        arm = self._resolve_fault(fault, smr.counts, smr.lines if need_lines else None)
+        arm = self._resolve_fault(fault, smr.counts, smr.lines if need_lines else None, smr.file_counts() if need_lines else None)
         self._journal(i, "real")
         sm = Seams(arm=arm, budget=50 * smr.total + 1000, count_lines=need_lines)
         try:
@@ -783,7 +800,8 @@ class World:
         with _GlobalEnv():
             clf = self._new_instance(op["inst"], "Classifier")
             out, sm = self._run_classify(atoms, clf, count_lines=need_lines, budget=20_000_000)
-        c = dict(out=out[0], counts=dict(sm.counts), total=sm.total, lines=sm.lines if need_lines else None)
+        c = dict(out=out[0], counts=dict(sm.counts), total=sm.total, lines=sm.lines if need_lines else None,
+                 file_lines=sm.file_counts() if need_lines else None)
         if out[0] == "ok":
             c["digest"] = oracles.classification_digest(out[1])
         else:
@@ -802,7 +820,7 @@ class World:
         if ref["out"] == "hang":
             self._violate("HANG", i, "isolated execution: %s" % ref["exc"])
             return {"out": "hang"}
-        arm = self._resolve_fault(fault, ref["counts"], ref["lines"])
+        arm = self._resolve_fault(fault, ref["counts"], ref["lines"], ref.get("file_lines"))
         clf = self._instance(op["inst"], "Classifier")
         self._journal(i, "real")
         out, sm = self._run_classify(atoms, clf, arm=arm, count_lines=need_lines, budget=50 * ref["total"] + 20000)
